@@ -252,7 +252,7 @@ theorem evConnect_quiet {w w' : World} (h : evConnect w = some w') : Quiet w w' 
         refine Quiet.trans ?_ (Quiet.of_eq (w := List.foldl attach _ _) rfl rfl rfl rfl)
         exact (foldl_quiet attach attach_quiet _ _).pre rfl rfl rfl rfl
 
-theorem evConnFail_quiet {w w' : World} {k : Nat} (h : evConnFail w k = some w') : Quiet w w' := by
+theorem evConnFail_quiet {w w' : World} {k : Nat} (h : evConnFail w k e = some w') : Quiet w w' := by
   unfold evConnFail at h
   split at h
   · cases h; exact fireFail_quiet _ _ _
